@@ -26,6 +26,10 @@ def plan(tier, seed):
                                schemes=list(PLACEMENT), extra={"part": "placement"})
     for s in specs:
         s["name"] = s["part"] + "-" + s["name"]
+    # tables of more than 2^16 entries (counters and batch sizes change width there)
+    for sch in (["CJJ14.PiBas"] if tier == "quick" else ["CJJ14.PiBas", "CJJ14.PiPack", "CT14.Pi"]):
+        specs.append({"name": f"sorted-big-{gen.SHORT[sch]}", "scheme": sch, "part": "big", "index": 0, "of": 1,
+                      "budget_s": 200 if tier == "quick" else 900})
     return specs
 
 
@@ -121,7 +125,7 @@ def permutations_of(db, rng):
     return [("reverse", rev), ("rotate", rot), ("shuffle", dict(sh))]
 
 
-def run_sorted_case(scheme, cid, cfg, cls, db, acc, rng):
+def run_sorted_case(scheme, cid, cfg, cls, db, acc, rng, permutations=None, record=True):
     short = gen.SHORT[scheme]
     L = sse.loader(scheme)
     case = sse.case_desc(scheme, cid, cfg, cls, db)
@@ -138,7 +142,7 @@ def run_sorted_case(scheme, cid, cfg, cls, db, acc, rng):
         return False
     variants = [("original", db, raw0)]
     for pname, pdb in permutations_of(db, rng):
-        if len(db) < 2 and pname != "reverse":
+        if (len(db) < 2 and pname != "reverse") or (permutations is not None and pname not in permutations):
             continue
         try:
             variants.append((pname, pdb, sch.EDBSetup(key, copy.deepcopy(pdb)).serialize()))
@@ -155,7 +159,10 @@ def run_sorted_case(scheme, cid, cfg, cls, db, acc, rng):
                 acc.violation(f"{short}:table-not-sorted", f"{scheme}: keys of {path} are not in ascending order in the "
                                                            f"serialized index ({pname} input order)", dict(case, order=pname))
                 return True
-        seqs = real_label_sequences(L, sch, cobj, key, raw, pdb)
+        if record:
+            seqs = real_label_sequences(L, sch, cobj, key, raw, pdb)
+        else:  # schemes without random filler labels: every stored label is real
+            seqs = {path: keys for path, keys in tables_of(body)}
         if base_seq is None:
             base_seq = seqs
             acc.count("real_labels_recorded", sum(len(v) for v in seqs.values()))
@@ -203,6 +210,28 @@ def slot_map(scheme, L, sch, cobj, key, edb, db):
     return out
 
 
+_PRELUDE = {}
+
+
+def prelude(rng):
+    """The same deterministic-looking work before each of the two setups: every scheme builds a small index from a
+    fixed database under a fixed key.  On correct code this leaves the random sources in different states each time;
+    if anything in it re-seeds a shared generator from its inputs, both setups that follow start from the same state."""
+    if not _PRELUDE:
+        for s in gen.SCHEMES:
+            cfg = gen.default_config(s)
+            if s == "CGKO06.SSE1":
+                cfg.update(param_s=16, param_dictionary_size=4)
+            isz = cfg.get("param_identifier_size", 8)
+            db = {b"p1": [bytes([i + 1]) * isz for i in range(3)], b"p2": [bytes([9]) * isz]}
+            if s == "CGKO06.SSE2":
+                cfg["param_n"] = 4
+            sch = sse.loader(s).SSEScheme(cfg)
+            _PRELUDE[s] = (sch, sch.KeyGen(), db)
+    for s, (sch, key, db) in _PRELUDE.items():
+        sch.EDBSetup(key, copy.deepcopy(db))
+
+
 def run_placement_case(scheme, cid, cfg, db, acc, rng):
     short = gen.SHORT[scheme]
     L = sse.loader(scheme)
@@ -213,8 +242,14 @@ def run_placement_case(scheme, cid, cfg, db, acc, rng):
         sch = L.SSEScheme(cfg)  # ONE scheme object for both setups
         cobj = L.SSEConfig(cfg)
         key1 = sch.KeyGen()
+        with_prelude = rng.random() < 0.5
+        if with_prelude:
+            prelude(rng)
+            acc.count("placement.with_prelude")
         edb1 = sch.EDBSetup(key1, copy.deepcopy(db))
         key2 = key1 if PLACEMENT[scheme] == "same-key" else sch.KeyGen()
+        if with_prelude:
+            prelude(rng)
         edb2 = sch.EDBSetup(key2, copy.deepcopy(db))
         m1 = slot_map(scheme, L, sch, cobj, key1, edb1, db)
         m2 = slot_map(scheme, L, sch, cobj, key2, edb2, db)
@@ -291,6 +326,21 @@ def placement_db(scheme, cfg, rng):
 def run_shard(spec, acc, ctx):
     scheme = spec["scheme"]
     rng = ctx.rng
+    if spec["part"] == "big":
+        cfg = gen.default_config(scheme)
+        if scheme == "CJJ14.PiPack":
+            cfg["param_B"] = 1
+        cfg["param_identifier_size"] = 4 if "param_identifier_size" in cfg else None
+        if cfg["param_identifier_size"] is None:
+            del cfg["param_identifier_size"]
+        lens = [65600, 300, 7] if scheme != "CT14.Pi" else [40000, 20000, 5000, 536]
+        db, info = gen.db_from_lens(rng, scheme, cfg, lens, "profile")
+        if run_sorted_case(scheme, "big", cfg, "more-than-2^16-entries", db, acc, rng, permutations=["reverse"],
+                           record=(scheme == "CT14.Pi")):
+            acc.add("distinct", sse.case_fp(scheme, "big", db))
+        acc.count("cases")
+        acc.count("big_table_cases")
+        return
     if spec["part"] == "sorted":
         first = True
         for cid, cfg, cls, db, info in sse.iter_cases(spec, ctx, scales=[6, 16, 40],
@@ -374,6 +424,8 @@ def finish(m, tier, seed):
         "slot_map_comparisons": c.get("slot_map_comparisons", 0),
         "keywords_with_different_slots": c.get("keywords_with_different_slots", 0),
         "setup_failed": c.get("setup_failed", 0),
+        "placement_cases_preceded_by_the_all_scheme_prelude": c.get("placement.with_prelude", 0),
+        "tables_with_more_than_65536_entries": c.get("big_table_cases", 0),
         "dp17_shared_buckets": pairs,
         "dp17_shared_buckets_in_input_order": inorder,
     }
